@@ -18,7 +18,8 @@ RULE = ('one case = one request history: 1-40 evaluation requests against one su
         'both counters, training lists, train() schedule, and that the hook was not consulted while untrained.  Non-trivial = '
         'at least one request judged; distinct = hash of (surrogate kind, train_step, hook decisions, history length).')
 ASSUMPTIONS = [
-    'requests are sequential (the property quantifies over histories; counter races under threads are outside it - observation O3)',
+    'requests are sequential, except in the parallel family where 2-3 simulated workers issue them with pre-emption at '
+    'objective-call granularity and only schedule-independent accounting is judged (statement-level counter races are O3)',
     'regressors are stubbed (fit / score / predict): the property is about accounting, not about the quality of predictions',
 ]
 COMPONENTS = {
@@ -27,7 +28,7 @@ COMPONENTS = {
     'stub': ['regressor (StubRegressor)', 'user objective and predict hook (harness world)', 'joblib', 'time.time', 'uuid1'],
 }
 PROBES_EXPECTED = ['hook_accept', 'hook_decline', 'trained_by_schedule', 'initially_trained', 'train_step_minus_1', 'no_hook',
-                   'passthrough', 'scikit_variant', 'batch_family', 'run_family', 'predictions', 'true_evaluations', 'hook_value_numpy',
+                   'passthrough', 'scikit_variant', 'batch_family', 'run_family', 'parallel_family', 'predictions', 'true_evaluations', 'hook_value_numpy',
                    'hook_value_zero']
 
 TRAIN_STEPS = (3, -1, 1, 2, 5, 10)
@@ -223,7 +224,83 @@ class Harness:
         return val
 
 
+def _parallel(D):
+    """requests issued by 2-3 simulated workers (Algorithm.evaluate with max_processes > 1 on a problem with a predicting
+    surrogate).  Which request meets a trained model depends on the schedule, so only schedule-independent accounting is
+    judged: every true evaluation is counted and recorded exactly once, the counters add up to the number of requests, and the
+    model is retrained exactly at the multiples of train_step.  Pre-emption at objective-call granularity (line-level
+    pre-emption off: the counter update after the objective call is a plain read-modify-write, observation O3)."""
+    from artap.individual import Individual
+    kind = ('predict', 'scikit')[D.dec('cfg', 'pskind', 2)]
+    train_step = TRAIN_STEPS[D.dec('cfg', 'train_step', len(TRAIN_STEPS))]
+    trained = D.dec('cfg', 'trained0', 3) == 1
+    sim = W.begin_run(D, line_p=0.0)
+    ctx = core.Ctx(PID, D, sim)
+    ctx.probe('parallel_family')
+    w = W.World(D, sim, fail='none', precision=0, with_predict=True, name='c19p')
+    trainlog = []
+    sur = _make_surrogate(kind, w, train_step, trained, trainlog)
+    w.problem.surrogate = sur
+    consulted = []
+
+    def hook(individual):
+        consulted.append(bool(sur.trained))
+        if D.dec('fault', ('hookid', individual.id), 2) == 1:
+            sim.stat('hook_accept')
+            return [2000.0 + individual.id] * w.m
+        sim.stat('hook_decline')
+        return None
+    w.predict_hook = hook
+    workers = 2 + D.dec('cfg', 'pworkers', 2)
+    alg = W.dummy_algorithm(w, workers=workers)
+    designs = []
+    site = 'SurrogateModelPredict.evaluate (parallel workers)'
+    try:
+        with W.quiet():
+            for b in range(1 + D.dec('work', 'nb', 3)):
+                batch = [Individual(W.gen_vector(w, D, 'work', ('v', b, i))) for i in range(2 + D.dec('work', ('nd', b), 8))]
+                designs += batch
+                alg.evaluate(batch)
+    except (kernel.Deadlock, kernel.StepCap):
+        raise
+    except Exception as e:
+        if type(e).__name__ == 'HarnessError':
+            raise
+        ctx.violation('unexpected_exception', site, 'parallel evaluation with a predicting surrogate raised %r' % (e,))
+        return core.result(ctx, sim)
+    R_, C_ = len(designs), len(w.calls)
+    ctx.check()
+    if not all(consulted):
+        ctx.violation('predicted_untrained', site, 'the predict hook was consulted while the model was untrained')
+    elif sur.eval_counter != C_ or sur.eval_counter + sur.predict_counter != R_:
+        ctx.violation('counters', site, '%d requests from %d workers, %d true evaluations: eval_counter %d, predict_counter %d'
+                      % (R_, workers, C_, sur.eval_counter, sur.predict_counter))
+    elif len(sur.x_data) != C_ or len(sur.y_data) != C_ or sorted(tuple(x) for x in sur.x_data) != sorted(tuple(c.vector) for c in w.calls) \
+            or any([float(v) for v in y] != w.f(list(x)) for x, y in zip(sur.x_data, sur.y_data)):
+        ctx.violation('training_set', site, 'training set has %d/%d pairs for %d true evaluations, or a pair does not belong together'
+                      % (len(sur.x_data), len(sur.y_data), C_))
+    else:
+        exp = [] if train_step == -1 else [k * train_step for k in range(1, C_ // train_step + 1)]
+        if trainlog != exp:
+            ctx.violation('train_schedule', site, 'train() ran at evaluation counts %r, expected %r (train_step %d, %d true evaluations)'
+                          % (trainlog, exp, train_step, C_))
+    for d in designs:
+        hits = [c for c in w.calls if c.obj == id(d)]
+        if len(hits) == 0 and [float(v) for v in d.costs] != [2000.0 + d.id] * w.m:
+            ctx.violation('value', site, 'design id %d was not sent to the objective, yet its costs %r are not the hook value' % (d.id, list(d.costs)))
+            break
+        if len(hits) > 1:
+            ctx.violation('extra_or_missing_call', site, 'design id %d was sent to the objective %d times' % (d.id, len(hits)))
+            break
+    ctx.sample = {'family': 'parallel', 'surrogate': kind, 'train_step': train_step, 'initially_trained': trained, 'workers': workers,
+                  'requests': R_, 'true_evaluations': C_, 'train_at': trainlog[:10], 'policy': sim.policy}
+    ctx.sig('parallel', kind, train_step, trained, workers, R_, C_, tuple(sim.sigs[:2]))
+    return core.result(ctx, sim)
+
+
 def run_one(D, opts=None):
+    if D.weighted('cfg', 'pfamily', (5, 1)) == 1:
+        return _parallel(D)
     fam = D.weighted('cfg', 'family', (4, 1, 1))
     kind = ('predict', 'eval', 'scikit')[D.weighted('cfg', 'skind', (4, 1, 2))]
     train_step = TRAIN_STEPS[D.dec('cfg', 'train_step', len(TRAIN_STEPS))]
